@@ -142,7 +142,7 @@ def _plan(prop, q, n):
 
 PLANS = {("C%02d" % i): True for i in range(1, 19)}
 LEVEL = {p: "exploration" for p in PLANS}
-LEVEL.update({"C05": "fault_enumeration", "C06": "fault_enumeration", "C18": "fault_enumeration"})
+LEVEL.update({"C08": "exploration", "C05": "fault_enumeration", "C06": "fault_enumeration", "C18": "fault_enumeration"})
 
 
 def setup():
